@@ -279,6 +279,19 @@ impl<F: Read + Write + Seek> Flusher<F> for FlushBuffer {
 
 //===========================================================================//
 
+/// Overwrites the byte range `start..end` of a chain with zeros.
+fn zero_fill<W: Write + Seek>(
+    chain: &mut W,
+    start: u64,
+    end: u64,
+) -> io::Result<()> {
+    if end > start {
+        chain.seek(SeekFrom::Start(start))?;
+        io::copy(&mut io::repeat(0).take(end - start), chain)?;
+    }
+    Ok(())
+}
+
 fn read_data_from_stream<F: Read + Seek>(
     minialloc: &mut MiniAllocator<F>,
     stream_id: u32,
@@ -417,6 +430,8 @@ fn resize_stream<F: Read + Write + Seek>(
             // into a new mini chain.
             let mut chain = minialloc.open_mini_chain(consts::END_OF_CHAIN)?;
             chain.set_len(new_stream_len)?;
+            // Mini sectors are not zeroed when they are (re)allocated.
+            zero_fill(&mut chain, 0, new_stream_len)?;
             chain.start_sector_id()
         } else {
             // Case 1b: The new length is large enough that it should be placed
@@ -438,6 +453,11 @@ fn resize_stream<F: Read + Write + Seek>(
             // existing chain.
             let mut chain = minialloc.open_mini_chain(old_start_sector)?;
             chain.set_len(new_stream_len)?;
+            if new_stream_len > old_stream_len {
+                // Neither the tail of the old last mini sector nor newly
+                // (re)allocated mini sectors are guaranteed to be zero.
+                zero_fill(&mut chain, old_stream_len, new_stream_len)?;
+            }
             debug_assert_eq!(chain.start_sector_id(), old_start_sector);
             old_start_sector
         } else {
@@ -476,9 +496,21 @@ fn resize_stream<F: Read + Write + Seek>(
             // Case 3c: The new length is still too large to fit in a mini
             // chain.  Therefore, we just need to adjust the length of the
             // existing chain.
+            let sector_len = minialloc.version().sector_len() as u64;
             let mut chain =
                 minialloc.open_chain(old_start_sector, SectorInit::Zero)?;
             chain.set_len(new_stream_len)?;
+            if new_stream_len > old_stream_len {
+                // New sectors are zero-initialized, but the tail of the old
+                // last sector may hold data from before an earlier shrink.
+                let old_sector_end =
+                    old_stream_len.div_ceil(sector_len) * sector_len;
+                zero_fill(
+                    &mut chain,
+                    old_stream_len,
+                    new_stream_len.min(old_sector_end),
+                )?;
+            }
             debug_assert_eq!(chain.start_sector_id(), old_start_sector);
             old_start_sector
         }
